@@ -180,7 +180,13 @@ class FunctionValue:
     def __call__(self, *args: Any, **kwargs: Any) -> Any:
         fn = self.fn
         env = dict(self.genv)
-        if self.self_obj is not None:
+        decos = {dotted(d) for d in fn.decorator_list}
+        if self.self_obj is not None and "staticmethod" in decos:
+            pass  # no receiver is passed
+        elif self.self_obj is not None and "classmethod" in decos:
+            cls_name = self.self_obj.attrs.get("__class__") if isinstance(self.self_obj, Obj) else None
+            args = (self.genv.get(cls_name, Tag(str(cls_name))),) + tuple(args)
+        elif self.self_obj is not None:
             args = (self.self_obj,) + tuple(args)
             env["__self__"] = self.self_obj
         if self.owner is not None:
@@ -354,6 +360,8 @@ class Evaluator:
                 raise Undecided(f"unknown attribute {n.attr}")
             if isinstance(base, Tag):
                 return Tag(base.name + "." + n.attr)
+            if callable(base) and hasattr(base, "class_attr"):
+                return base.class_attr(n.attr)  # Class.method / Class.CONSTANT
             raise Undecided(f"attribute {norm(n)}")
         if isinstance(n, (ast.List, ast.Tuple)):
             out: List[Any] = []
@@ -1120,6 +1128,27 @@ def _bound(base: Any, name: str) -> Callable[..., Any]:
     return call
 
 
+def _getattr(o: Any, name: Any, *default: Any) -> Any:
+    if not isinstance(name, str):
+        raise Undecided("getattr with an abstract name")
+    if isinstance(o, Obj):
+        if name in o.attrs:
+            return o.attrs[name]
+        if o.resolver is not None:
+            try:
+                return o.resolver(o, name)
+            except Undecided:
+                if default:
+                    return default[0]
+                raise
+        if default:
+            return default[0]
+        raise Undecided(f"unknown attribute {name}")
+    if isinstance(o, Tag):
+        return Tag(o.name + "." + name)
+    raise Undecided("getattr on abstract value")
+
+
 def _len(x: Any) -> int:
     if isinstance(x, (list, tuple, str, dict, range, set, frozenset)):
         return len(x)
@@ -1198,6 +1227,13 @@ BUILTINS: Dict[str, Callable[..., Any]] = {
     "copy.copy": lambda x: __import__("copy").copy(x),
     "iter": lambda x: list(x),
     "itertools.chain": lambda *xs: [y for x in xs for y in x],
+    "itertools.product": lambda *xs, repeat=1: [tuple(t) for t in itertools.product(*[list(x) for x in xs], repeat=repeat)],
+    "itertools.combinations": lambda xs, r: [tuple(t) for t in itertools.combinations(list(xs), r)],
+    "itertools.permutations": lambda xs, r=None: [tuple(t) for t in itertools.permutations(list(xs), r)],
+    "itertools.accumulate": lambda xs: (_ for _ in ()).throw(Undecided("itertools.accumulate")),
+    "product": lambda *xs, repeat=1: [tuple(t) for t in itertools.product(*[list(x) for x in xs], repeat=repeat)],
+    "combinations": lambda xs, r: [tuple(t) for t in itertools.combinations(list(xs), r)],
+    "getattr": lambda o, name, *d: _getattr(o, name, *d),
     "functools.reduce": lambda f, xs, *init: __import__("functools").reduce(f, list(xs), *init),
     "cast": lambda t, v: v,
     "typing.cast": lambda t, v: v,
